@@ -42,7 +42,10 @@ Definition sort_kv {A} (l : list (bytes * A)) : list (bytes * A) := fold_right i
 
 Definition jnum (n : num) : outcome bytes :=
   match n with
-  | NJson t => if json_number_ok t then Ok t else Err EStringConversion
+  | NJson t => match t with
+               | [] => Ok [48]   (* encoding/json writes an empty json.Number as 0 *)
+               | _ => if json_number_ok t then Ok t else Err EStringConversion
+               end
   | NInt _ z => Ok (Z_to_bytes z)
   | NDec d => match d with DFin _ _ _ => Unmodelled | _ => Err EStringConversion end
   | NFloat _ f => match f with FInf _ | FNaN => Err EStringConversion | _ => Unmodelled end
